@@ -10,7 +10,8 @@ use crate::config::raw_items::{
 };
 use crate::config::{to_export_targets, to_report_targets};
 use crate::kernel::hash::Hash;
-use crate::model::Commodity;
+use crate::model::{AccountTreeNode, Commodity};
+use crate::parser::parts::identifier::is_multi_part_id;
 use crate::tackler;
 use jiff::fmt::strtime::BrokenDownTime;
 use jiff::tz::TimeZone;
@@ -627,6 +628,15 @@ pub(crate) struct Equity {
 
 impl Equity {
     fn from(eq_raw: &EquityRaw, report: &ReportRaw) -> Result<Equity, tackler::Error> {
+        // The equity account is written verbatim into the equity export,
+        // so it must be an account name which the journal parser accepts
+        let eqa = eq_raw.equity_account.as_str();
+        if !(is_multi_part_id(eqa) && AccountTreeNode::from(eqa).is_ok()) {
+            let msg = format!(
+                "Invalid `equity.equity-account`, this is not a valid account name: '{eqa}'"
+            );
+            return Err(msg.into());
+        }
         Ok(Equity {
             equity_account: eq_raw.equity_account.clone(),
             acc_sel: get_account_selector(&eq_raw.acc_sel, report),
